@@ -93,6 +93,10 @@ pub fn exotic_states(rng: &mut Rng) -> Vec<Screen> {
         (5, 3, Box::new(|s| { s.draw("top"); s.display(); s.cursor_position(Some(1), Some(1)); })),
         (9, 3, Box::new(|s| { s.cursor_position(Some(3), Some(9)); s.draw("x"); s.reset_mode(&[25], true); })),
         (3, 3, Box::new(|s| { s.alignment_display(); s.cursor_position(Some(2), Some(2)); s.erase_characters(Some(1)); s.set_margins(Some(1), Some(2)); })),
+        // a cell whose text is a lone combining mark: the mark went into the stub cell of a wide character, whose own cell was then overwritten / erased
+        (6, 2, Box::new(|s| { s.draw("\u{6f22}"); s.draw("\u{301}"); s.cariage_return(); s.draw("a"); })),
+        (6, 2, Box::new(|s| { s.draw("x\u{6f22}\u{308}"); s.cursor_position(Some(1), Some(2)); s.erase_characters(Some(1)); s.cursor_position(Some(2), Some(1)); })),
+        (5, 2, Box::new(|s| { s.draw("\u{30b3}\u{3099}z"); s.cursor_position(Some(1), Some(1)); s.delete_characters(Some(1)); })),
     ];
     let mut out = Vec::new();
     for (c, l, f) in scripts.iter() {
@@ -900,7 +904,7 @@ fn all_strings(reps: &[char], len: usize, f: &mut dyn FnMut(String)) {
 }
 fn c03(em: &mut Em, rng: &mut Rng, thorough: bool) {
     // one representative per character class the grammar distinguishes
-    let reps: Vec<char> = "\u{7}\u{8}\t\n\r\u{e}\u{f}\u{18}\u{1a}\u{1b}\u{9b}\u{9d}\u{9c}05;?$ >#%()[]\\8cDMH7ARPmhJr@x~\u{e9}\u{3042}".chars().collect();
+    let reps: Vec<char> = "\u{7}\u{8}\t\n\r\u{e}\u{f}\u{18}\u{1a}\u{1b}\u{9b}\u{9d}\u{9c}05;?$ >#%()[]\\8cDMH7ARPmhJr@x~\u{e9}\u{3042}\u{ff12}\u{b2}\u{663}".chars().collect();
     let reps2: Vec<char> = "\u{7}\n\u{18}\u{1b}\u{9b}\u{9d}\u{9c}5;?$ #%(][\\8cRPmHx".chars().collect();
     let reps3: Vec<char> = "\u{7}\u{1b}\u{9c}5;?$][\\PmH".chars().collect();
     let mut all: Vec<String> = Vec::new();
@@ -917,7 +921,7 @@ fn c03(em: &mut Em, rng: &mut Rng, thorough: bool) {
     events(em, rng, if thorough { 4000 } else { 600 }, &mut |r| { let n = 1 + r.below(40); let d: String = (0..n).map(|_| char::from_u32(48 + r.below(10) as u32).unwrap()).collect(); let d2: String = (0..r.below(25)).map(|_| char::from_u32(48 + r.below(10) as u32).unwrap()).collect();
         format!("{}{}{};{}{}", r.pick(&["\u{1b}[", "\u{9b}"]), r.pick(&["", "?"]), d, d2, r.pick(&["H", "m", "A", "r", "h", "z", "\u{18}"])) });
     // every final byte 0x20..0x7e (and some non-ASCII) x 0..3 parameters x private flag: the dispatch tables
-    let mut finals: Vec<char> = (0x20u32..0x7f).map(|c| char::from_u32(c).unwrap()).collect(); finals.extend(['\u{e9}', '\u{3042}', '\u{7f}', '\u{80}']);
+    let mut finals: Vec<char> = (0x20u32..0x7f).map(|c| char::from_u32(c).unwrap()).collect(); finals.extend(['\u{e9}', '\u{3042}', '\u{7f}', '\u{80}', '\u{ff12}', '\u{b2}', '\u{b9}', '\u{bd}', '\u{663}', '\u{2160}', '\u{96f6}']);
     let mut combos: Vec<String> = Vec::new();
     for f in finals.iter() { for ps in ["", "5", "5;12", "0;0;7", ";", "3;"] { for pv in ["", "?"] { combos.push(format!("\u{1b}[{}{}{}", pv, ps, f)); } } combos.push(format!("\u{1b}{}", f)); combos.push(format!("\u{1b}#{}", f)); combos.push(format!("\u{1b}%{}Z", f)); combos.push(format!("\u{1b}({}", f)); combos.push(format!("\u{1b}){}", f)); combos.push(format!("\u{1b}]{};t\u{7}", f)); }
     let mut it2 = combos.into_iter();
